@@ -88,6 +88,7 @@ type Stats struct {
 	Messages     int            `json:"messages"`
 	Sentinel     int            `json:"sentinel_messages"`
 	Reregs       int            `json:"re_registrations"`
+	Replaced     int            `json:"hooks_replaced_under_the_same_name"`
 	Others       int            `json:"other_hooks_registered"`
 	OthersGone   int            `json:"other_hooks_deleted"`
 	ExpirySteps  int            `json:"expiry_steps"`
@@ -109,6 +110,7 @@ func (s *Stats) Add(o *Stats) {
 	s.Messages += o.Messages
 	s.Sentinel += o.Sentinel
 	s.Reregs += o.Reregs
+	s.Replaced += o.Replaced
 	s.Others += o.Others
 	s.OthersGone += o.OthersGone
 	s.ExpirySteps += o.ExpirySteps
@@ -135,6 +137,8 @@ type Sink struct {
 	routes  sync.Map // hook name -> chan string
 	retired sync.Map // names of deleted hooks
 	Stray   int64
+	// longest time a request spent in the handler (tile38 gives a request 5 s, then sends the notification again)
+	SlowestMs int64
 }
 
 func NewSink() (*Sink, error) {
@@ -144,6 +148,12 @@ func NewSink() (*Sink, error) {
 	}
 	k := &Sink{ln: ln}
 	k.srv = &http.Server{Handler: http.HandlerFunc(func(w http.ResponseWriter, r *http.Request) {
+		t0 := time.Now()
+		defer func() {
+			if ms := int64(time.Since(t0) / time.Millisecond); ms > atomic.LoadInt64(&k.SlowestMs) {
+				atomic.StoreInt64(&k.SlowestMs, ms)
+			}
+		}()
 		body, _ := io.ReadAll(r.Body)
 		var m struct {
 			Hook string `json:"hook"`
@@ -175,6 +185,7 @@ type Options struct {
 	Others     int   // population of other hooks
 	Rereg      int   // re-register the fences under test every Rereg behaviours (0 = never)
 	Seed       int64 // for the population and the registration order
+	Only       int   // > 0: register and compare only this fence of the scene (1-based)
 }
 
 // A sentinel object.  Every round (one per step) it is SET inside the area - its position tagged with the round
@@ -339,6 +350,10 @@ func NewRunner(id int, o Options, sink *Sink, st *Stats) (*Runner, error) {
 	seen := map[groupKey]int{}
 	inCell := insideCells(o.Table)
 	for fi, fd := range sc.Fences {
+		if !r.active(fi) {
+			r.fences = append(r.fences, &fenceReg{def: fd})
+			continue
+		}
 		area := o.Table.Areas[fd.Area-1]
 		fr := &fenceReg{def: fd, cmd: strings.ToUpper(area.Cmd)}
 		// how can this fence be marked: by del; else by the SET inside (or the FSET inside); else by the tour
@@ -409,6 +424,8 @@ func NewRunner(id int, o Options, sink *Sink, st *Stats) (*Runner, error) {
 	}
 	return r, nil
 }
+
+func (r *Runner) active(fi int) bool { return r.o.Only == 0 || r.o.Only == fi+1 }
 
 func (r *Runner) Close() {
 	r.unregister(false)
@@ -517,13 +534,32 @@ func (r *Runner) registerSt(st *Stats) error {
 	order := r.rng.Perm(len(r.fences))
 	var chans []string
 	r.doneChan = fmt.Sprintf("done%d-%d", r.id, r.gen)
-	for _, fi := range order {
+	// every other fence is first registered under its name as a decoy - a big area around the frame detecting
+	// everything - and then REPLACED by the real fence (SETHOOK / SETCHAN of an existing name): what the decoy
+	// would report must never be seen
+	box := r.o.Table.FrameBox
+	W, H := box[2]-box[0], box[3]-box[1]
+	f6 := func(x float64) string { return strconv.FormatFloat(x, 'f', 6, 64) }
+	decoy := []string{"INTERSECTS", r.key, "FENCE", "DETECT", "inside,outside,enter,exit,cross",
+		"BOUNDS", f6(box[1] - 4*H), f6(box[0] - 4*W), f6(box[3] + 4*H), f6(box[2] + 4*W)}
+	for oi, fi := range order {
+		if !r.active(fi) {
+			continue
+		}
 		fr := r.fences[fi]
 		fence := append([]string{fr.cmd, r.key}, fr.base...)
+		replace := (oi+r.gen)%2 == 0
 		if r.has["hook"] {
 			fr.hookName = fmt.Sprintf("fh%d-%d-%d", r.id, r.gen, fi+1)
 			fr.hookCh = make(chan string, 4096)
 			r.sink.routes.Store(fr.hookName, fr.hookCh)
+			if replace {
+				v, e := r.drv.Do(append([]string{"SETHOOK", fr.hookName, r.sink.URL(fmt.Sprintf("w%d", r.id))}, decoy...)...)
+				if err := okReply(v, e, "SETHOOK (decoy)"); err != nil {
+					return err
+				}
+				st.Replaced++
+			}
 			v, e := r.drv.Do(append([]string{"SETHOOK", fr.hookName, r.sink.URL(fmt.Sprintf("w%d", r.id))}, fence...)...)
 			if err := okReply(v, e, "SETHOOK "+strings.Join(fence, " ")); err != nil {
 				return err
@@ -531,6 +567,13 @@ func (r *Runner) registerSt(st *Stats) error {
 		}
 		if r.has["chan"] {
 			fr.chanName = fmt.Sprintf("fc%d-%d-%d", r.id, r.gen, fi+1)
+			if replace {
+				v, e := r.drv.Do(append([]string{"SETCHAN", fr.chanName}, decoy...)...)
+				if err := okReply(v, e, "SETCHAN (decoy)"); err != nil {
+					return err
+				}
+				st.Replaced++
+			}
 			v, e := r.drv.Do(append([]string{"SETCHAN", fr.chanName}, fence...)...)
 			if err := okReply(v, e, "SETCHAN "+strings.Join(fence, " ")); err != nil {
 				return err
@@ -610,8 +653,8 @@ func (r *Runner) unregister(check bool) error {
 		if fr.hookName != "" {
 			v, e := r.drv.Do("DELHOOK", fr.hookName)
 			keep(okReply(v, e, "DELHOOK"))
-			r.sink.routes.Delete(fr.hookName)
 			r.sink.retired.Store(fr.hookName, true) // late notifications about sentinels may still be in flight
+			r.sink.routes.Delete(fr.hookName)
 			fr.hookName = ""
 		}
 		if fr.chanName != "" {
@@ -914,7 +957,9 @@ func (r *Runner) quiesce(nsent int, st *Stats) ([]t38.Value, map[string][][]*obs
 		per := make([][]*obsMsg, nf)
 		byName := map[string]int{}
 		for i, fr := range r.fences {
-			byName[fr.chanName] = i
+			if r.active(i) {
+				byName[fr.chanName] = i
+			}
 		}
 		for {
 			v, err := r.sub.Recv()
@@ -947,6 +992,9 @@ func (r *Runner) quiesce(nsent int, st *Stats) ([]t38.Value, map[string][][]*obs
 	if r.has["hook"] {
 		per := make([][]*obsMsg, nf)
 		for i, fr := range r.fences {
+			if !r.active(i) {
+				continue
+			}
 			want := r.sentinels[fr.sent]
 			tm := time.NewTimer(patience)
 		loop:
@@ -974,6 +1022,9 @@ func (r *Runner) quiesce(nsent int, st *Stats) ([]t38.Value, map[string][][]*obs
 	if r.has["live"] {
 		per := make([][]*obsMsg, nf)
 		for i, fr := range r.fences {
+			if !r.active(i) {
+				continue
+			}
 			want := r.sentinels[fr.sent]
 			for {
 				v, err := fr.live.Recv()
@@ -1108,6 +1159,9 @@ func (r *Runner) Run(bi int, b *Behaviour, st *Stats) ([]Mismatch, error) {
 			return out, fmt.Errorf("behaviour %d step %d %s: reply %s", bi, si, desc, replies[0].String())
 		}
 		for f := 0; f < nf; f++ {
+			if !r.active(f) {
+				continue
+			}
 			exp := h.Msgs[f]
 			if carrying {
 				exp = append(carry[f], h.Msgs[f]...)
